@@ -2,6 +2,7 @@ package loadbalancer
 
 import (
 	"fmt"
+	"net/http"
 	"testing"
 	"time"
 
@@ -21,7 +22,10 @@ type c07yParams struct {
 }
 
 var c07yEvents = []string{"req-ok", "req-500", "req-refused(502)", "req-abort", "clock+0.9s(<interval)", "clock+2.1s(>interval,<timeout)", "clock+3.1s(>timeout)",
-	"req-103-then-500", "req-103-then-ok", "req-garbage(502)", "req-timeout(502)"}
+	"req-103-then-500", "req-103-then-ok", "req-garbage(502)", "req-timeout(502)",
+	// every request is subject to the breaker, whatever its kind: requests that ask for a protocol
+	// upgrade (which the backend declines with an ordinary answer), other methods
+	"upgrade-request-ok", "upgrade-request-500", "POST-500", "HEAD-ok", "OPTIONS-500"}
 
 type c07yInst struct {
 	s   *vrt.Sched
@@ -34,7 +38,17 @@ type c07yInst struct {
 func (in *c07yInst) LastOutcome() string { return in.out }
 
 func (in *c07yInst) Step(ev int) *vh.HViol {
-	modes := []string{"ok", "500", "refuse", "abort", "", "", "", "103+500", "103+ok", "garbage", "timeout"}
+	modes := []string{"ok", "500", "refuse", "abort", "", "", "", "103+500", "103+ok", "garbage", "timeout", "ok", "500", "500", "ok", "500"}
+	edits := map[int]func(*http.Request){
+		11: func(r *http.Request) { r.Header.Set("Connection", "Upgrade"); r.Header.Set("Upgrade", "h2c") },
+		12: func(r *http.Request) {
+			r.Header.Set("Connection", "keep-alive, Upgrade")
+			r.Header.Set("Upgrade", "websocket")
+		},
+		13: func(r *http.Request) { r.Method = "POST" },
+		14: func(r *http.Request) { r.Method = "HEAD" },
+		15: func(r *http.Request) { r.Method = "OPTIONS" },
+	}
 	switch ev {
 	case 4:
 		in.s.AdvanceQuiet(900 * time.Millisecond)
@@ -55,7 +69,7 @@ func (in *c07yInst) Step(ev int) *vh.HViol {
 	for _, h := range in.k.hitsVector() {
 		before += h
 	}
-	res := in.k.request("10.0.0.1", nil)
+	res := in.k.requestWith("10.0.0.1", nil, edits[ev])
 	after := 0
 	for _, h := range in.k.hitsVector() {
 		after += h
